@@ -7,6 +7,7 @@ import SakuraVerif.Driver.ExprOps
 import SakuraVerif.Driver.CoreOps
 import SakuraVerif.Driver.ScriptOps
 import SakuraVerif.Driver.TimeOps
+import SakuraVerif.Model.Tie
 open Sakura Sakura.Wire Sakura.Driver
 
 def handle (line : String) : String :=
@@ -33,6 +34,9 @@ def handle (line : String) : String :=
   | ["script", prog] => "ok " ++ scriptRun prog
   | ["timespec", tb, fr, de, sh, args] => s!"ok out={Sakura.Time.getTime (parseInt tb) (parseInt fr) (parseInt de) (parseInt sh) (parseIntList args)}"
   | ["pflaw", p, evs] => "ok ev=" ++ showEvents (pfLaw (parseInt p) (parseEvents evs))
+  | ["tieflush", mode, ch, tb, br, tv, evs] =>
+      let r := Sakura.Tie.flush (parseInt mode) (parseInt ch) (parseInt tb) (parseInt br) (parseInt tv) (parseEvents evs)
+      s!"ok ev={showEvents r.1} br={r.2}"
   | _ => "bad-op"
 
 partial def loop (h : IO.FS.Stream) (out : IO.FS.Stream) : IO Unit := do
